@@ -418,5 +418,33 @@ Fixpoint run_ops (c : config) (ops : list op) : result (list (action * action)) 
       do c' <- update_at p (fun x => Ok (add_paths x ps)) c; run_ops c' ops'
   end.
 
+(* ---- notions used to state cache transparency ---------------------------- *)
+(* the configuration data without the two caches *)
+Fixpoint erase (c : config) : config :=
+  match c with
+  | mkconfig locs _ paths rules _ children excludes =>
+      mkconfig locs None paths rules None (map erase children) (map erase excludes)
+  end.
+
+(* "configuration is complete": every filled cache slot holds what would be
+   computed now.  True of a freshly built configuration (all slots empty) and
+   preserved by filter calls; add_rules / add_paths / set_locales on a
+   configuration that was already queried break it. *)
+Inductive coherent : config -> Prop :=
+| coh : forall locs allc paths rules fc children excludes,
+    (forall l, allc = Some l ->
+               l = all_locales_pure (mkconfig locs allc paths rules fc children excludes)) ->
+    (forall ch, fc = Some ch -> ch = build_cache (fc_locale ch) paths rules) ->
+    Forall coherent children -> Forall coherent excludes ->
+    coherent (mkconfig locs allc paths rules fc children excludes).
+
+(* a sequence of filter calls on one configuration object *)
+Fixpoint run_queries (c : config) (qs : list (locale * file * option str)) : list action :=
+  match qs with
+  | [] => []
+  | (loc, f, ent) :: qs' =>
+      let '(v, c') := filter_st c loc f ent in v :: run_queries c' qs'
+  end.
+
 End Filter.
 
